@@ -43,6 +43,7 @@ def gen(rng, max_n=7, with_debug=True, with_setup=True, with_tags=True):
                 s["tag"] = rng.choice(pool)
             elif r < 0.3:
                 s["tag"] = tuple(rng.sample(pool, 2))
+            s["tag_at_call"] = s["tag"] is not None and rng.random() < 0.4
     return dict(n=n, specs=specs, is_async=rng.random() < 0.2)
 
 
@@ -53,7 +54,7 @@ def make_node(i, s, inst):
 
     body.__name__ = body.__qualname__ = "n%d" % i
     kw = dict(priority=s["prio"], debug=s["debug"], setup=s["setup"])
-    if s["tag"] is not None:
+    if s["tag"] is not None and not s.get("tag_at_call"):
         kw["tag"] = s["tag"]
     return xn(body, **kw)
 
@@ -67,7 +68,10 @@ def build(sc, inst=0, maxc=2):
             args = [(vals[j][0] if j in s.get("idx", []) else vals[j]) for j in s["preds"]]
             if s["const"]:
                 args.append(7)
-            vals.append(nodes[i](*args))
+            ckw = {}
+            if s["tag"] is not None and s.get("tag_at_call"):
+                ckw["twz_tag"] = s["tag"]          # the tag given at the call site instead of the decorator
+            vals.append(nodes[i](*args, **ckw))
         return tuple((v[0] if sc["specs"][i].get("ret_idx") else v) for i, v in enumerate(vals))
 
     describe.__qualname__ = describe.__name__ = "describe"
